@@ -331,6 +331,44 @@ fn one_value(c: &mut Ctx, fam: &str, idx: u64, rng: &mut Rng, t: u16, fs: &[Fv],
             through!(TreeCompressor, "TreeCompressor");
             through!(HashCompressor, "HashCompressor");
         }
+        // (10) the same RDATA behind the other enum (ZoneRecordData has its own dispatch code):
+        // same octets, same lengths, same canonical form, also behind a compressor
+        {
+            use domain::base::rdata::ParseRecordData;
+            let mut p = Parser::from_ref(&buf[..]);
+            p.advance(12).unwrap();
+            let mut sub = p.parse_parser(wire.len()).unwrap();
+            match domain::rdata::ZoneRecordData::<&[u8], ParsedName<&[u8]>>::parse_rdata(Rtype::from_int(t), &mut sub) {
+                Ok(Some(z)) => {
+                    let cz = lib_compose(&z);
+                    if cz.plain != co.plain || cz.canonical != co.canonical || cz.rdlen_plain != co.rdlen_plain || cz.rdlen_compress != co.rdlen_compress || cz.len_prefixed != co.len_prefixed {
+                        viol(c, "zone-enum-differs", "ZoneRecordData composes, or states the length of, the same RDATA differently from AllRecordData".into());
+                    }
+                    if fs.iter().any(|f| matches!(f, Fv::Name { .. })) {
+                        let r = (|| -> Result<Vec<u8>, String> {
+                            let mut q = MessageBuilder::from_target(StaticCompressor::new(Vec::new())).map_err(|_| "from_target".to_string())?.question();
+                            for f in fs {
+                                if let Fv::Name { wire, .. } = f {
+                                    if let Ok(n) = Name::from_octets(wire.clone()) {
+                                        q.push((n, Rtype::A)).map_err(|e| format!("question push: {}", e))?;
+                                    }
+                                }
+                            }
+                            let mut a = q.answer();
+                            a.push((Name::<Vec<u8>>::root_vec(), Class::IN, Ttl::from_secs(0), &z)).map_err(|e| format!("record push: {}", e))?;
+                            Ok(a.finish().into_target())
+                        })();
+                        match r.map(|m| (w::parse_message(&m).map(|pm| (pm.end, pm.records.last().and_then(|r| r.rdata_cmpform.clone()))), m.len())) {
+                            Ok((Ok((end, Some(rd))), len)) if end == len && rd == w::compose_fields_lower_all(fs) => c.count("zone_enum_compressed_checked", 1),
+                            other => viol(c, "zone-enum-compressing-target", format!("ZoneRecordData behind a compressor: the record written does not read back ({:?})", other.map(|x| x.1))),
+                        }
+                    }
+                    c.count("zone_enum_values", 1);
+                }
+                Ok(None) => {}
+                Err(e) => viol(c, "zone-enum-reject-valid", format!("ZoneRecordData rejects RDATA that AllRecordData accepts: {}", e)),
+            }
+        }
         // (8) unknown record data carries any type opaquely
         {
             let mut p = Parser::from_ref(&wire[..]);
@@ -622,6 +660,8 @@ pub fn run(c: &mut Ctx) {
         c.floor("compressed_input_accepted", 100);
         c.floor("compressing_target_compressed", 100);
         c.floor("svcb_builder_out_of_order_3plus", 100);
+        c.floor("zone_enum_values", 1000);
+        c.floor("zone_enum_compressed_checked", 100);
         c.floor("mutants_accepted", 100);
         c.floor("mutants_rejected", 100);
         c.floor("opt_records", 10);
